@@ -29,7 +29,8 @@ ASSUMPTIONS = ["parameters are plain positional-or-keyword parameters with ASCII
                "are outside the theorems",
                "defaults are None, str, int, bool or a list of str; a float default is checked by the oracle only "
                "(the shared parser model has no float kind)",
-               "a parameter whose name consists only of underscores is excluded by hypothesis (known finding #29)",
+               "a parameter whose name consists only of underscores is refused with ValueError (fix #29); the theorems about "
+               "built contexts derive the absence of such names from the context having been built",
                "a list-type parameter without default is, as documented, never filled positionally and defaults to []"]
 
 VOCAB = ["a", "b", "ab", "a_b", "ab_c", "x_", "_x", "xy", "x1", "foo", "foo_bar", "f", "o", "no_x", "color", "no_color"]
@@ -377,7 +378,8 @@ def legit_error_causes(params, opts):
     for n, k in params:
         if k == "T" and n not in optional and ("no-" + dashed(n)) in ds:
             must = True
-    # a name made of underscores only has no dashed form: refusing it is as good as it gets
+    # a name made of underscores only has no dashed form: no well-formed flag can exist, refusing it (fix #29)
+    # is as good as it gets; a context built all the same fails `long-flag-malformed` below
     may = any(all_underscores(n) for n in names)
     keys = opts.get("help", [])
     if keys:
@@ -625,16 +627,6 @@ def replay(case):
     return (not fails), (fails[0] if fails else "ok")
 
 
-def match_known(entry, failure):
-    """#29: exactly the malformed-long-flag failures of a parameter whose name consists only of underscores."""
-    if entry.get("id") != "C09-underscore-only-param":
-        return False
-    m = re.match(r"long-flag-malformed param=(\S+) ", failure["why"])
-    if not m or not all_underscores(m.group(1)):
-        return False
-    return any(all_underscores(n) and n == m.group(1) for n, _ in failure["case"]["params"])
-
-
 # ------------------------------------------------------------------ generation
 
 def order_params(params):
@@ -688,8 +680,8 @@ def random_case(rng):
     k = rng.choice([1, 2, 2, 3, 3, 3, 4, 4, 4])
     pool = VOCAB + (RARE if rng.random() < 0.15 else [])
     names = rng.sample(pool, k)
-    if rng.random() < 0.006:
-        names[rng.randrange(k)] = rng.choice(["_", "__"])  # finding #29, kept rare so that it cannot crowd out others
+    if rng.random() < 0.03:
+        names[rng.randrange(k)] = rng.choice(["_", "__"])  # blank CLI name (#29, now refused with ValueError)
     kinds = [rng.choice(MAIN_KINDS + ["E", "E", "T", "F", "S", "I", "N", "I0", "S0", "L0"]) for _ in names]
     params = order_params(list(zip(names, kinds)))
     return {"params": [list(p) for p in params], "opts": random_opts(rng, params)}
@@ -737,7 +729,7 @@ def run(ctx):
         out.exhaustive = True
     cases += ex
     out.extra["exhaustive_small_scope"] = len(ex)
-    for _ in range(ctx.n(9000, 120000)):
+    for _ in range(ctx.n(8000, 120000)):
         cases.append(random_case(rng))
     n_argv = 2
     # pass 1: the real code + oracle; collect model lines
@@ -785,11 +777,6 @@ def run(ctx):
             out.hist["oracle-only"] += 1
         for f in fails:
             out.hist["fail:" + f.split(" ")[0]] += 1
-            if match_known({"id": "C09-underscore-only-param"}, {"case": c, "why": f}):
-                # finding #29: keep a few, so that the (capped) failure list cannot fill up with them
-                out.hist["fail:known-underscore-only"] += 1
-                if out.hist["fail:known-underscore-only"] > 20:
-                    continue
             out.fail(c, f)
     # pass 2: the model
     if ctx.model_ok and lines:
@@ -818,6 +805,7 @@ LEVEL_TEXT = ("Lean 4 proofs over ALL signatures (parameter lists over ASCII ide
               "bool/--no- rule, kind from default, and kwargs = parameter names with own defaults; the model is tied to "
               "invoke.tasks / invoke.parser.context on every run by a differential correspondence check (exhaustive small scope "
               "+ random signatures and options, incl. parses of by-construction argvs) and a direct oracle on the real "
-              "ParserContext; parameters named only with underscores are excluded by hypothesis (known finding)")
+              "ParserContext, also along object-reuse histories (repeated generation of one Task's CLI, parse-mutate-parse); "
+              "parameters named only with underscores are refused (ValueError), which the model follows")
 TECHNIQUE = ("Lean 4 theorems over all signatures (induction over the parameter list with the taken-names invariant, permutation "
              "invariance of the reorder, fold invariant of add_arg) + model/implementation correspondence + oracle")
